@@ -131,6 +131,10 @@ type Engine struct {
 	substMemo   map[*smt.Term]*smt.Term
 	usedParams  map[string]int
 	oblig       map[string][2]int64
+	summarise   map[string]bool
+	summaries   map[string][]outcome
+	solver2     *smt.Solver
+	mergedDepth int
 	lastObligations map[string][2]int64
 
 	// statistics (cumulative)
@@ -144,6 +148,7 @@ type Stats struct {
 	IntrinsicsSeen           map[string]bool
 	AssertQueries            int64
 	BranchQueries            int64
+	ForkSites                map[string]int
 }
 
 type intrinsic func(e *Engine, fr *frame, args []Value, site ssa.CallInstruction) Value
@@ -184,7 +189,12 @@ func NewEngine(p *Program, cfg Config) (*Engine, error) {
 	return e, nil
 }
 
-func (e *Engine) Close() { e.solver.Close() }
+func (e *Engine) Close() {
+	e.solver.Close()
+	if e.solver2 != nil {
+		e.solver2.Close()
+	}
+}
 
 func (e *Engine) SolverStats() smt.SolverStats { return e.solver.Stats }
 
@@ -204,22 +214,25 @@ func (e *Engine) set(p *Value, v Value) {
 	*p = v
 }
 
-func (e *Engine) rollback() {
-	for i := len(e.undo) - 1; i >= 0; i-- {
+func (e *Engine) rollback() { e.rollbackTo(0, 0, 0) }
+
+// rollbackTo undoes heap writes back to the given undo-log marks.
+func (e *Engine) rollbackTo(m1, m2, m3 int) {
+	for i := len(e.undo) - 1; i >= m1; i-- {
 		*e.undo[i].p = e.undo[i].old
 	}
-	e.undo = e.undo[:0]
-	for i := len(e.mapUndo) - 1; i >= 0; i-- {
+	e.undo = e.undo[:m1]
+	for i := len(e.mapUndo) - 1; i >= m2; i-- {
 		u := e.mapUndo[i]
 		u.m.entries = u.entries
 		u.m.idxFor = -1
 	}
-	e.mapUndo = e.mapUndo[:0]
-	for i := len(e.chanUndo) - 1; i >= 0; i-- {
+	e.mapUndo = e.mapUndo[:m2]
+	for i := len(e.chanUndo) - 1; i >= m3; i-- {
 		u := e.chanUndo[i]
 		u.c.buf, u.c.closed = u.buf, u.closed
 	}
-	e.chanUndo = e.chanUndo[:0]
+	e.chanUndo = e.chanUndo[:m3]
 }
 
 // store writes v of type t through pointer p (field-wise for aggregates, so that
@@ -392,6 +405,16 @@ func (e *Engine) choose(alts []*smt.Term, exhaustive bool) int {
 	if len(feas) == 0 {
 		e.abort(abortInfeasible, "no feasible alternative")
 	}
+	if len(feas) > 1 && e.mergedDepth == 0 {
+		site := "?"
+		if n := len(e.stack); n > 0 {
+			site = e.stack[n-1].fn.String()
+		}
+		if e.Stats.ForkSites == nil {
+			e.Stats.ForkSites = map[string]int{}
+		}
+		e.Stats.ForkSites[site] += len(feas) - 1
+	}
 	prefix := e.decisions[:e.pos]
 	for _, f := range feas[1:] {
 		w := make([]int, len(prefix)+1)
@@ -560,6 +583,8 @@ func (e *Engine) RunPath(fn *ssa.Function, prefix []int) (res PathResult) {
 		e.hostState[k] = v
 	}
 	e.oblig = map[string][2]int64{}
+	e.summarise = nil
+	e.mergedDepth = 0
 	e.bind = map[*smt.Term]*smt.Term{}
 	e.substMemo = map[*smt.Term]*smt.Term{}
 	e.pathQueries = 0
